@@ -61,6 +61,15 @@ def state_laws():
         s.append(9)
         if A.s != a:
             fails.append((a, "mutating the list returned by .s changed the state"))
+        # the list handed to the constructor stays the caller's: editing it afterwards does not change the state
+        mine = list(a)
+        B = lw.State(mine)
+        h0 = hash(B)
+        mine.append(7)
+        if mine[:1]:
+            mine[0] += 3
+        if B.s != a or hash(B) != h0 or B != lw.State(list(a)):
+            fails.append((a, f"editing the list that was passed to State(...) changed the state to {B}"))
         for setter in (lambda: setattr(A, "s", [1]), lambda: A.__setitem__(0, 1), lambda: setattr(A, "n_modes", 3)):
             try:
                 setter()
